@@ -109,6 +109,11 @@ def run(ctx: Ctx, cfg: dict) -> dict:
                 out["result"] = "raised:" + type(t.exception()).__name__
             else:
                 out["result"] = "returned"
+                # a cut at or beyond the end of what the library NEEDS of the peer's handshake output does not have to fail wrap() (the
+                # TLS 1.3 server's NewSessionTickets, label "hs-final", are post-handshake messages for a client)
+                hs = [sg for sg in relay.segments if sg[0] in ("hs", "hs-final")]
+                need = [sg for sg in hs if sg[0] == "hs"] if (version == "1.3" and role == "client") else hs
+                out["needed_handshake_bytes"] = need[-1][2] if need else 0
                 tls = t.result()
                 out["tls_closing"] = tls.is_closing()
                 await tls.aclose()
@@ -209,7 +214,7 @@ def oracle(cfg: dict, obs: dict) -> str | None:
             return "failed-or-cancelled-handshake-leaves-wrapped-transport-open"
         if r == "cancelled" and not obs["cancel_applied"]:
             return "cancelled-without-cancel-request"
-        if r == "returned" and (cfg.get("cut") is not None or cfg.get("stall")) and not obs["cancel_applied"]:
+        if r == "returned" and ((cfg.get("cut") is not None and cfg["cut"] < obs.get("needed_handshake_bytes", 0)) or cfg.get("stall")) and not obs["cancel_applied"]:
             return "handshake-succeeded-on-a-cut-stream"
         if r == "returned" and not obs.get("leaf_closed"):
             return "wrapped-transport-left-open-after-close"
